@@ -152,13 +152,24 @@ Lemma reads_served :
   run_ops (wired false 100000) store0 reads_ops = reads_expected.
 Proof. split; vm_compute; reflexivity. Qed.
 
-(* the hole in BatchUpdateBlobs: an unsupported compressor value is answered OK and nothing is stored *)
-Definition hole_entry : bu_entry := mkBU false hA 100 (COther 2) (mkBody 1 100 true false) "r1".
+(* regression cases for two repaired defects: a blob sent with an unsupported compressor is refused
+   (it used to be answered OK and not stored); data sent under the empty digest through
+   ByteStream.Write is refused (the already-exists shortcut used to answer OK), while a genuinely
+   empty upload is accepted *)
+Definition hole_entry : bu_entry := mkBU false hA 100 (COther 2) (good 1 100) "r1".
 
-Lemma batch_unsupported_compressor_acknowledged :
-  bu_one cfgZ store0 hole_entry = (store0, SOk) /\ ~ bu_good hole_entry /\
-  run_ops cfgZ store0 [FBatchUpdate [hole_entry]; FFindMissing [(hA, 100)]] = [OSts SOk [SOk]; OMiss [(hA, 100)]].
-Proof.
-  split; [reflexivity|]. split; [|vm_compute; reflexivity].
-  unfold bu_good, body_good, empty_claim, hole_entry. cbn. intros [(_ & _ & H)|(H & _)]; discriminate.
-Qed.
+Definition repaired : list fop :=
+  [FBatchUpdate [hole_entry];
+   FBsWrite (WN false emptySha256 0) [mkWMsg true 0 4096 true] false (mkBody 2 4096 true false) "r2";
+   FBsWrite (WN true emptySha256 0) [mkWMsg true 0 50 true] false (mkBody 3 4096 true false) "r3";
+   FBsWrite (WN false emptySha256 0) [mkWMsg true 0 0 true] false (mkBody 0 0 true true) "r4";
+   FBsWrite (WN true emptySha256 0) [mkWMsg true 0 9 true] false (mkBody 0 0 true true) "r5";
+   FHttpPut true emptySha256 5 (XVal 0) CeNone (mkBody 4 5 true false) "r6";
+   FFindMissing [(hA, 100)]].
+
+Definition repaired_expected : list fobs :=
+  [OSts SOk [bad]; OSt (SErr EOutOfRange); OSt bad; OSt SOk; OSt SOk; OSt bad; OMiss [(hA, 100)]].
+
+Lemma repaired_defects_stay_repaired :
+  run_ops cfgZ store0 repaired = repaired_expected /\ run_ops cfgU store0 repaired = repaired_expected.
+Proof. split; vm_compute; reflexivity. Qed.
